@@ -133,6 +133,11 @@ func modelResolve(text string, tree map[string]any, canonDefaults ...bool) (stri
 		key, def, hasDef := strings.Cut(content, ":")
 		var rep string
 		if v := lookup(tree, key); key != "" && present(v) {
+			switch v.(type) {
+			case map[string]any, []any:
+				// the text that stands for a non-empty mapping or list inside a tag is not laid down by the statement
+				return text, defaults, steps, "composite"
+			}
 			rep = textOf(v)
 		} else if hasDef {
 			rep = def
@@ -421,6 +426,10 @@ func (p c16) Run(c *core.Ctx) {
 		return
 	case "panic":
 		c.Fail("", fmt.Sprintf("tag %s: panic escaped App.Run: %v", tag, r.Panic), detail(map[string]any{"stack": core.Short(r.Stack, 1500)}))
+		return
+	}
+	if status == "composite" {
+		c.Count("placeholders_quoting_a_mapping_or_list_not_judged", 1)
 		return
 	}
 	nontrivial := nPlace >= 2 || strings.Contains(full, "${srv.") || valueHasPlaceholder || status == "circular"
